@@ -97,6 +97,8 @@ def build(cfg, log, setting=None):
         elif c["kind"] == "adapt":
             cond = tp.conditions.AdaptiveWeightsCondition(model, smp, lambda u, x: u - (p * x + q), weight=w, **nm(cid))
             cond.adaptive_layer.double()
+            if cfg.get("new_lam"):      # the user chooses the initial point weights: a new Parameter object in place of the default one
+                cond.adaptive_layer.weight = torch.nn.Parameter(torch.ones(len(c["xs"]), dtype=torch.float64))
             objs["adapt"] = cond
         else:
             raise ValueError(c["kind"])
@@ -178,7 +180,7 @@ def fit(cfg, steps, workdir, callbacks_extra=(), ckpt_path=None, log=None, setti
     else:
         kw["limit_val_batches"] = 0
     trainer = pl.Trainer(max_steps=steps, logger=False, enable_checkpointing=False, enable_progress_bar=False,
-                         enable_model_summary=False, num_sanity_val_steps=0, accelerator="cpu", devices=1,
+                         enable_model_summary=False, num_sanity_val_steps=(2 if cfg["val"] and cfg.get("sanity") else 0), accelerator="cpu", devices=1,
                          default_root_dir=workdir, callbacks=cbs, **kw)
     with warnings.catch_warnings():
         warnings.simplefilter("ignore")
@@ -195,7 +197,8 @@ def fit(cfg, steps, workdir, callbacks_extra=(), ckpt_path=None, log=None, setti
 
 
 def run_one(s):
-    cfg = dict(s["cfg"], named=(s["tid"] % 2 == 1), late_weights=(s["tid"] % 3 == 0), eval_between=(s["tid"] % 4 != 3))
+    cfg = dict(s["cfg"], named=(s["tid"] % 2 == 1), late_weights=(s["tid"] % 3 == 0), eval_between=(s["tid"] % 4 != 3),
+               new_lam=(s["tid"] % 2 == 1), sanity=(s["tid"] % 3 != 1))
     wd = tempfile.mkdtemp(prefix="c07-", dir=os.environ.get("VERIF_TMP", None))
     try:
         r = watched(lambda: fit(cfg, cfg["N"], wd), 90)
